@@ -336,7 +336,7 @@ pub fn run_pass(ctx: &Ctx, report: &Report, fams: &[Family], stop_at: f64) -> Va
             } else {
                 fallback.fetch_add(1, Ordering::Relaxed);
             }
-            if pi == 0 && o.stage == "ok" && o.expected_fail.is_none() && p.calls.len() >= 2 {
+            if pi == 0 && o.stage == "ok" && o.expected_fail.is_none() && o.all_nonzero && p.calls.len() >= 2 && has_ext_mul(p) {
                 let mut s = samples.lock().unwrap();
                 if s.len() < 3 {
                     s.push(json!({"field": LABEL, "program": p.show(), "inputs": o.inputs}));
@@ -348,10 +348,27 @@ pub fn run_pass(ctx: &Ctx, report: &Report, fams: &[Family], stop_at: f64) -> Va
         }
     };
 
+    let shapes = horner_chain_shapes();
+    let shapes_done = AtomicU64::new(0);
+    let run_shapes = || {
+        shapes.par_iter().for_each(|p| {
+            if ctx.used() >= stop_at {
+                return;
+            }
+            visit(p);
+            shapes_done.fetch_add(1, Ordering::Relaxed);
+        });
+        eprintln!("[{TAG}] horner chain shapes {}/{} proofs={} t={:.1}s", shapes_done.load(Ordering::Relaxed), shapes.len(), proved.load(Ordering::Relaxed), ctx.elapsed_s() - t_start);
+    };
+
     let mut fam_reports = vec![];
     let (mut th, mut tc) = (0u64, 0u64);
     let mut all_exhaustive = true;
-    for fam in fams {
+    for (fi, fam) in fams.iter().enumerate() {
+        // order: single calls, then the Horner chain shapes, then the larger families
+        if fi == 1 {
+            run_shapes();
+        }
         let stats = Stats::default();
         let seen_prune = SeenSet::default();
         let t0 = ctx.elapsed_s();
@@ -366,17 +383,11 @@ pub fn run_pass(ctx: &Ctx, report: &Report, fams: &[Family], stop_at: f64) -> Va
         eprintln!("[{TAG}] family {} histories={} canonical={} exhaustive={} t={:.1}s", fam.name, h, c, !to, ctx.elapsed_s() - t0);
     }
 
-    let shapes = horner_chain_shapes();
-    let shapes_done = AtomicU64::new(0);
-    shapes.par_iter().for_each(|p| {
-        if ctx.used() >= stop_at {
-            return;
-        }
-        visit(p);
-        shapes_done.fetch_add(1, Ordering::Relaxed);
-    });
+    if fams.len() <= 1 {
+        run_shapes();
+    }
     let shapes_complete = shapes_done.load(Ordering::Relaxed) as usize == shapes.len();
-    eprintln!("[{TAG}] horner chain shapes {}/{} proofs={} t={:.1}s", shapes_done.load(Ordering::Relaxed), shapes.len(), proved.load(Ordering::Relaxed), ctx.elapsed_s() - t_start);
+    eprintln!("[{TAG}] pass done proofs={} t={:.1}s", proved.load(Ordering::Relaxed), ctx.elapsed_s() - t_start);
 
     json!({
         "field": LABEL,
